@@ -19,3 +19,8 @@ def run(ctx):
     r.not_decided = ["fs.filterdir glob semantics", "GenBank parsing"]
     ctx.guard(registry_rules, ctx, "C20")
     ctx.guard(registry_data_lint, ctx, "C20.data")
+    # every bundled registry builds its entities with <kit part base>.characterize(record): a lookup succeeds only if
+    # characterisation tries the concrete part classes (isabstract on the class table) and returns an accepting one
+    from ..rules_misc import characterize_rule, helper_rules
+    ctx.guard(characterize_rule, ctx, "C20.characterize")
+    ctx.guard(helper_rules, ctx, "C20.helpers")
